@@ -10,6 +10,9 @@
 
 #include "IO/ProgramOptions.hpp"
 
+#include <iomanip>
+#include <limits>
+
 vfps::ProgramOptions::ProgramOptions() :
     _configfile("default.cfg"),
     I_b({3e-3f}),
@@ -423,10 +426,12 @@ void vfps::ProgramOptions::save(std::string fname)
         if (!it->second.value().empty()) {
             if (it->second.value().type() == typeid(float)) {
                 ofs << it->first << '='
+                    << std::setprecision(std::numeric_limits<float>::max_digits10)
                     << _vm[it->first].as<float>()
                     << std::endl;
             } else if (it->second.value().type() == typeid(double)) {
                 ofs << it->first << '='
+                    << std::setprecision(std::numeric_limits<double>::max_digits10)
                     << _vm[it->first].as<double>()
                     << std::endl;
             } else if (it->second.value().type() == typeid(int32_t)) {
@@ -449,6 +454,7 @@ void vfps::ProgramOptions::save(std::string fname)
                        == typeid(std::vector<integral_t>)) {
                 for (auto v : _vm[it->first].as<std::vector<integral_t>>()) {
                     ofs << it->first << '='
+                        << std::setprecision(std::numeric_limits<integral_t>::max_digits10)
                         << v
                         << std::endl;
                 }
